@@ -169,6 +169,85 @@ pub fn run(args: &Args) -> Report {
             }
         }
     }
+    // 2c. the THIS. convention: AXIS_PTS_REF / CURVE_AXIS_REF THIS.x inside a TYPEDEF_CHARACTERISTIC designates the
+    //     component x of every TYPEDEF_STRUCTURE that uses the typedef as a component (unless an INSTANCE uses the
+    //     typedef directly, or no structure contains it: then the name is looked up like any other object)
+    let nthis = if args.thorough { 3000 } else { 300 };
+    for k in 0..nthis {
+        let pool = ["ax", "cv", "other", "z9"];
+        let direct = rng.chance(1, 5);
+        let nstruct = rng.below(4);
+        let mut structs: Vec<(bool, Vec<&str>)> = vec![];
+        for _ in 0..nstruct {
+            let contains = rng.chance(3, 4);
+            let comps: Vec<&str> = pool.iter().filter(|_| rng.chance(1, 2)).cloned().collect();
+            structs.push((contains, comps));
+        }
+        let refs: Vec<(&str, bool)> = (0..1 + rng.below(2)).map(|_| (pool[rng.below(3)], rng.chance(1, 2))).collect(); // (component, via CURVE_AXIS_REF)
+        let this_objects: Vec<&str> = pool.iter().filter(|_| rng.chance(1, 6)).cloned().collect();
+        let mut body = String::from("/begin RECORD_LAYOUT rl FNC_VALUES 1 UBYTE COLUMN_DIR DIRECT AXIS_PTS_X 2 UBYTE INDEX_INCR DIRECT /end RECORD_LAYOUT /begin TYPEDEF_AXIS ta \"\" NO_INPUT_QUANTITY rl 0 NO_COMPU_METHOD 2 0 1 /end TYPEDEF_AXIS /begin TYPEDEF_CHARACTERISTIC tc \"\" MAP rl 0 NO_COMPU_METHOD 0 1");
+        for (x, curve) in &refs {
+            if *curve {
+                body.push_str(&format!(" /begin AXIS_DESCR CURVE_AXIS NO_INPUT_QUANTITY NO_COMPU_METHOD 2 0 1 CURVE_AXIS_REF THIS.{x} /end AXIS_DESCR"));
+            } else {
+                body.push_str(&format!(" /begin AXIS_DESCR COM_AXIS NO_INPUT_QUANTITY NO_COMPU_METHOD 2 0 1 AXIS_PTS_REF THIS.{x} /end AXIS_DESCR"));
+            }
+        }
+        body.push_str(" /end TYPEDEF_CHARACTERISTIC");
+        for (i, (contains, comps)) in structs.iter().enumerate() {
+            body.push_str(&format!(" /begin TYPEDEF_STRUCTURE s{i} \"\" 16"));
+            for (j, c) in comps.iter().enumerate() {
+                body.push_str(&format!(" /begin STRUCTURE_COMPONENT {c} ta {j} /end STRUCTURE_COMPONENT"));
+            }
+            if *contains {
+                body.push_str(" /begin STRUCTURE_COMPONENT self_tc tc 8 /end STRUCTURE_COMPONENT");
+            }
+            body.push_str(" /end TYPEDEF_STRUCTURE");
+        }
+        if direct {
+            body.push_str(" /begin INSTANCE inst \"\" tc 0 /end INSTANCE");
+        }
+        for o in &this_objects {
+            body.push_str(&format!(" /begin AXIS_PTS THIS.{o} \"\" 0 NO_INPUT_QUANTITY rl 0 NO_COMPU_METHOD 2 0 1 /end AXIS_PTS"));
+        }
+        let text = format!("ASAP2_VERSION 1 71 /begin PROJECT p \"\" /begin MODULE m \"\" {body} /end MODULE /end PROJECT");
+        let input = hex(text.as_bytes());
+        rep.case(&(k, &text), true);
+        rep.bump("this-convention");
+        let file = match crate::a2lgen::load(&text) {
+            Ok(f) => f,
+            Err(e) => {
+                rep.fail("generator", input, e);
+                continue;
+            }
+        };
+        // reference reading of the convention
+        let containing: Vec<&Vec<&str>> = structs.iter().filter(|s| s.0).map(|s| &s.1).collect();
+        let mut want: Vec<String> = vec![];
+        for (x, _) in &refs {
+            if !direct && !containing.is_empty() {
+                if !containing.iter().all(|comps| comps.contains(x)) {
+                    want.push(x.to_string());
+                }
+            } else if !this_objects.contains(x) {
+                want.push(format!("THIS.{x}"));
+            }
+        }
+        want.sort();
+        match catch(|| file.check()) {
+            Err(p) => rep.fail("panic", input, p),
+            Ok(errs) => {
+                let x = xref_targets(&errs);
+                if x != want {
+                    rep.fail(if x.len() < want.len() { "incomplete" } else { "unsound" }, input.clone(), format!("THIS. convention: check() names {x:?}, expected {want:?} (directly used: {direct}, structures (contains typedef, components): {structs:?}, references {refs:?}, objects named THIS.*: {this_objects:?})"));
+                }
+                let enc = |v: &[&str]| if v.is_empty() { "-".to_string() } else { v.iter().map(|c| hex(c.as_bytes())).collect::<Vec<_>>().join("+") };
+                let st = if structs.is_empty() { "-".to_string() } else { structs.iter().map(|(c, comps)| format!("{}:{}", u8::from(*c), enc(comps))).collect::<Vec<_>>().join(";") };
+                let rf: Vec<&str> = refs.iter().map(|r| r.0).collect();
+                rep.tie(format!("chkthis {} {} {} {}", u8::from(direct), enc(&this_objects), st, enc(&rf)), x.join(","));
+            }
+        }
+    }
     // 3. totality on structurally odd files
     let odd = [
         "ASAP2_VERSION 1 71 /begin PROJECT p \"\" /begin MODULE m \"\" /end MODULE /end PROJECT".to_string(),
